@@ -1,4 +1,5 @@
 import ZarrsModel.Model.MemConc
+import ZarrsModel.Model.FsConc
 import ZarrsModel.Driver.Proto
 /- driver for C18: schedule enumeration of the model, prediction of per-thread results for a schedule,
 executable linearizability check of observed histories -/
@@ -16,6 +17,7 @@ def showOp : Op → String
   | .set v => "set:" ++ showHex v
   | .setPartial o v => "setp:" ++ toString o ++ ":" ++ showHex v
   | .get => "get"
+  | .getRange o n => "getr:" ++ toString o ++ ":" ++ toString n
   | .size => "size"
   | .erase => "erase"
 
@@ -24,6 +26,7 @@ def parseOp (s : String) : Option Op :=
   | ["set", v] => (parseHex v).map Op.set
   | ["setp", o, v] => do pure (Op.setPartial (← o.toNat?) (← parseHex v))
   | ["get"] => some .get
+  | ["getr", o, n] => do pure (Op.getRange (← o.toNat?) (← n.toNat?))
   | ["size"] => some .size
   | ["erase"] => some .erase
   | _ => none
@@ -34,6 +37,7 @@ def showRes : Res → String
   | .bytes (some b) => "some:" ++ showHex b
   | .size none => "none"
   | .size (some n) => "len:" ++ toString n
+  | .err => "err"
 
 def showProgs (ps : Progs) : String := "|".intercalate (ps.map (fun p => ",".intercalate (p.map showOp)))
 def parseProgs (s : String) : Option Progs := (s.splitOn "|").mapM (fun p => (p.splitOn ",").mapM parseOp)
@@ -48,5 +52,118 @@ def showOptBytes : Option Bytes → String
 /-- expected outcome of replaying `sched` on the real store: per-thread responses and the final value -/
 def predict (pr : Protocol) (ps : Progs) (i0 : Option Bytes) (sched : List Nat) : Option String :=
   (run pr ps (init ps i0) sched).map (fun s => "res=" ++ showOut s ++ " final=" ++ showOptBytes (finalValue s))
+
+
+
+/-! ### the filesystem protocol: same interface -/
+
+partial def allSchedsFs (pr : Protocol) (ps : FsConc.Progs) (s : FsConc.State) (pref : List Nat) (cap : Nat) (acc : Array (List Nat)) : Array (List Nat) :=
+  if acc.size ≥ cap then acc else
+  let en := (List.range ps.length).filter (fun t => FsConc.enabled pr ps s t)
+  if en.isEmpty then acc.push pref.reverse else
+  en.foldl (fun acc t => allSchedsFs pr ps (FsConc.step pr ps s t) (t :: pref) cap acc) acc
+
+def showOutL (out : List (List Res)) : String :=
+  "|".intercalate (out.map (fun rs => if rs.isEmpty then "-" else ",".intercalate (rs.map showRes)))
+
+def predictFs (pr : Protocol) (ps : Progs) (i0 : Option Bytes) (sched : List Nat) : Option String :=
+  (FsConc.run pr ps (FsConc.init ps i0) sched).map (fun s => "res=" ++ showOutL s.out ++ " final=" ++ showOptBytes s.file)
+
+/-- first position of the schedule at which the scheduled thread is NOT enabled in the model (the real store must block there) -/
+def firstBlocked (en : Nat → List Nat → Bool) (sched : List Nat) : Option (Nat × Nat) :=
+  (List.range sched.length).findSome? (fun i => let t := sched.getD i 0; if en t (sched.take i) then none else some (i, t))
+
+/-! ### case generation (the driver is the generator for C18: only the model knows which schedules are valid) -/
+
+def lcg (x : Nat) : Nat := (x * 6364136223846793005 + 1442695040888963407) % 18446744073709551616
+
+def opAlphabetMem : List Op := [.set [1, 2], .set [3], .setPartial 1 [255], .get, .getRange 0 1, .size, .erase]
+def opAlphabetFs : List Op := [.set [1, 2], .set [3], .get, .getRange 0 1, .size, .erase]
+
+def pick {α} [Inhabited α] (l : List α) (r : Nat) : α := l.getD ((r / 65536) % l.length) default
+
+instance : Inhabited Op := ⟨.get⟩
+
+/-- random program set: `nt` threads with 1..`maxOps` operations each -/
+def randProgs (alpha : List Op) (nt maxOps : Nat) (seed : Nat) : Progs × Nat :=
+  (List.range nt).foldl (fun (acc : Progs × Nat) _ =>
+    let r1 := lcg acc.2
+    let n := 1 + (r1 / 65536) % maxOps
+    let (ops, r) := (List.range n).foldl (fun (a : List Op × Nat) _ => let r := lcg a.2; (a.1 ++ [pick alpha r], r)) ([], r1)
+    (acc.1 ++ [ops], r)) ([], seed)
+
+def caseLines (store : String) (ps : Progs) (i0 : Option Bytes) (cap : Nat) (probeBlocked : Bool) : List String :=
+  let scheds := if store == "mem" then (allScheds .fixed ps (init ps i0) [] cap #[]).toList
+                else (allSchedsFs .fixed ps (FsConc.init ps i0) [] cap #[]).toList
+  let base := "c18 sched store=" ++ store ++ " init=" ++ (match i0 with | some b => showHex b | none => "none") ++ " progs=" ++ showProgs ps
+  let showSched (sc : List Nat) : String := if sc.isEmpty then "-" else ",".intercalate (sc.map toString)
+  let full := scheds.map (fun sc => base ++ " sched=" ++ showSched sc)
+  -- schedules the model forbids: a valid prefix followed by a thread that is not enabled there
+  let blocked := if !probeBlocked then [] else
+    (scheds.take 6).filterMap (fun sc =>
+      (List.range sc.length).findSome? (fun i =>
+        let pre := sc.take i
+        let dis := (List.range ps.length).filter (fun t =>
+          if store == "mem" then
+            match run .fixed ps (init ps i0) pre with
+            | some s => (curOp ps s t).isSome && !enabled .fixed ps s t
+            | none => false
+          else
+            match FsConc.run .fixed ps (FsConc.init ps i0) pre with
+            | some s => (FsConc.curOp ps s t).isSome && !FsConc.enabled .fixed ps s t
+            | none => false)
+        match dis with
+        | t :: _ => some (base ++ " sched=" ++ showSched (pre ++ [t]))
+        | [] => none))
+  full ++ blocked
+
+def genCases (tier : String) (seed : Nat) : List String :=
+  let thorough := tier == "thorough"
+  let inits : List (Option Bytes) := [none, some [7, 7, 7]]
+  -- exhaustive: every pair of single operations, both stores, both initial states, all schedules
+  let pairs (alpha : List Op) (store : String) : List String :=
+    alpha.flatMap (fun a => alpha.flatMap (fun b => inits.flatMap (fun i0 => caseLines store [[a], [b]] i0 10000 true)))
+  let sampled (alpha : List Op) (store : String) (n nt maxOps cap : Nat) (seed : Nat) : List String :=
+    ((List.range n).foldl (fun (acc : List String × Nat) k =>
+      let (ps, r) := randProgs alpha nt maxOps (lcg (acc.2 + k))
+      let i0 := if (r / 7) % 2 == 0 then none else some [7, 7, 7]
+      (acc.1 ++ caseLines store ps i0 cap (k % 3 == 0), r)) ([], seed)).1
+  pairs opAlphabetMem "mem" ++ pairs opAlphabetFs "fs" ++
+  sampled opAlphabetMem "mem" (if thorough then 150 else 25) 2 2 (if thorough then 400 else 60) (seed * 7919 + 1) ++
+  sampled opAlphabetMem "mem" (if thorough then 60 else 10) 3 1 (if thorough then 400 else 60) (seed * 7919 + 2) ++
+  sampled opAlphabetMem "mem" (if thorough then 40 else 4) 3 2 (if thorough then 300 else 40) (seed * 7919 + 3) ++
+  sampled opAlphabetMem "mem" (if thorough then 40 else 4) 2 3 (if thorough then 300 else 40) (seed * 7919 + 4) ++
+  sampled opAlphabetFs "fs" (if thorough then 80 else 10) 2 2 (if thorough then 200 else 40) (seed * 7919 + 5) ++
+  sampled opAlphabetFs "fs" (if thorough then 30 else 4) 3 1 (if thorough then 200 else 40) (seed * 7919 + 6)
+
+/-- replay handler: predicted outcome of the schedule on the repaired protocol; the observed history must also pass
+the executable linearizability checker -/
+def handle (l : Line) : Option (List String × Option String) := do
+  let store ← l.get "store"
+  let ps ← parseProgs (← l.get "progs")
+  let i0 ← (match ← l.get "init" with | "none" => some none | h => (parseHex h).map some)
+  let sched ← (match ← l.get "sched" with | "-" => some [] | s => (s.splitOn ",").mapM (·.toNat?))
+  if store == "mem" then
+    match history .fixed ps i0 sched with
+    | some (s, h) =>
+      let pred := "res=" ++ showOut s ++ " final=" ++ showOptBytes (finalValue s)
+      let pred := if allFinished ps s then pred else "unfinished " ++ pred
+      let note := if !allFinished ps s || linearizable i0 h (finalValue s) then none else some "model history not linearizable"
+      pure ([pred], note)
+    | none =>
+      match firstBlocked (fun t pre => match run .fixed ps (init ps i0) pre with | some s => enabled .fixed ps s t | none => false) sched with
+      | some (i, t) => pure (["blocked_t" ++ toString t ++ "_at_step_" ++ toString i], none)
+      | none => none
+  else
+    match FsConc.history .fixed ps i0 sched with
+    | some (s, h) =>
+      let pred := "res=" ++ showOutL s.out ++ " final=" ++ showOptBytes s.file
+      let pred := if FsConc.allFinished ps s then pred else "unfinished " ++ pred
+      let note := if !FsConc.allFinished ps s || linearizable i0 h s.file then none else some "model history not linearizable"
+      pure ([pred], note)
+    | none =>
+      match firstBlocked (fun t pre => match FsConc.run .fixed ps (FsConc.init ps i0) pre with | some s => FsConc.enabled .fixed ps s t | none => false) sched with
+      | some (i, t) => pure (["blocked_t" ++ toString t ++ "_at_step_" ++ toString i], none)
+      | none => none
 
 end Zarrs.DriverC18
